@@ -302,9 +302,9 @@ fn try_add_route(g: &mut Gen, p: &mut Prog, id: u32, cx: &Cx, switched_off: &mut
     true
 }
 
-fn build_positive(g: &mut Gen, cx: &Cx, switched_off: &mut Vec<&'static str>, breakable: bool) -> Option<Prog> {
+fn build_positive(g: &mut Gen, cx: &Cx, switched_off: &mut Vec<&'static str>) -> Option<Prog> {
     let mut p = rgen::gen_tree(g);
-    let k = (if breakable { 0 } else { 1 }) + g.weighted(&[2, 3, 3, 2]);
+    let k = 1 + g.weighted(&[2, 3, 3, 2]);
     let mut id = 0u32;
     for _ in 0..k {
         for _attempt in 0..8 {
@@ -314,9 +314,7 @@ fn build_positive(g: &mut Gen, cx: &Cx, switched_off: &mut Vec<&'static str>, br
             }
         }
     }
-    if breakable {
-        return Some(p);
-    } else if id == 0 {
+    if id == 0 {
         for _attempt in 0..16 {
             if try_add_route(g, &mut p, id, cx, switched_off, false) {
                 id += 1;
@@ -327,36 +325,58 @@ fn build_positive(g: &mut Gen, cx: &Cx, switched_off: &mut Vec<&'static str>, br
     (id > 0).then_some(p)
 }
 
-fn dbg(s: &str) {
-    use std::io::Write;
-    if let Ok(mut f) = std::fs::OpenOptions::new().create(true).append(true).open("/tmp/c17/dbg.txt") {
-        let _ = writeln!(f, "{s}");
-    }
-}
-
 fn build_negative(g: &mut Gen, cx: &Cx, switched_off: &mut Vec<&'static str>) -> Option<(Prog, Prog)> {
-    let base = build_positive(g, cx, switched_off, true)?;
-    let id = base.all_probes().len() as u32;
+    let tree = rgen::gen_tree(g);
+    // the reference that becomes illegal comes first, the legal rest is added to the broken program
+    let mut found = None;
     for _attempt in 0..40 {
-        let mut p = base.clone();
-        if !try_add_route(g, &mut p, id, cx, switched_off, true) {
+        let mut p = tree.clone();
+        if !try_add_route(g, &mut p, 0, cx, switched_off, true) {
             continue;
         }
-        if let Some(q) = break_one(g, &p, id, cx, switched_off) {
-            return Some((p, q));
-        }
-        if std::env::var("C17_DEBUG").is_ok() {
-            dbg(&format!("DEBUG break failed:\n{}", render(&p)));
+        if let Some((q, c)) = break_one(g, &p, 0, cx, switched_off) {
+            found = Some((q, c));
+            break;
         }
     }
-    if std::env::var("C17_DEBUG").is_ok() {
-        dbg(&format!("DEBUG no culprit:\n{}", render(&base)));
+    let (mut q, culprit) = found?;
+    let k = g.weighted(&[2, 3, 3, 2]);
+    let mut id = 1u32;
+    for _ in 0..k {
+        for _attempt in 0..8 {
+            let spec = g.span(|g| rgen::gen_route(g, &q));
+            let mut q2 = q.clone();
+            if rgen::apply_route(&mut q2, &spec, id).is_none() {
+                continue;
+            }
+            let Outcome::Expect(ev) = evaluate(&q2) else { continue };
+            if ev.iter().any(|e| e.res.is_err() != (e.id == 0)) {
+                continue;
+            }
+            let hz = active_hazards(&q2, &ev, cx);
+            if !hz.is_empty() {
+                switched_off.extend(hz);
+                continue;
+            }
+            // the all-legal twin must stay inside the domain as well
+            let mut t = q2.clone();
+            t.set_public(&culprit, true);
+            let Some(tev) = all_legal(&t) else { continue };
+            if !active_hazards(&t, &tev, cx).is_empty() {
+                continue;
+            }
+            q = q2;
+            id += 1;
+            break;
+        }
     }
-    None
+    let mut twin = q.clone();
+    twin.set_public(&culprit, true);
+    Some((twin, q))
 }
 
 /// turn exactly one `pub` flag off so that exactly one reference becomes illegal
-fn break_one(g: &mut Gen, p: &Prog, id: u32, cx: &Cx, switched_off: &mut Vec<&'static str>) -> Option<Prog> {
+fn break_one(g: &mut Gen, p: &Prog, id: u32, cx: &Cx, switched_off: &mut Vec<&'static str>) -> Option<(Prog, Ent)> {
     let evals = all_legal(p)?;
     for e in evals.iter().filter(|e| e.id == id) {
         if e.wrap.shadows() {
@@ -389,7 +409,7 @@ fn break_one(g: &mut Gen, p: &Prog, id: u32, cx: &Cx, switched_off: &mut Vec<&'s
                 switched_off.extend(hz);
                 continue;
             }
-            return Some(q);
+            return Some((q, c.clone()));
         }
     }
     None
@@ -539,7 +559,7 @@ impl Prop for C17 {
             },
             "positive" => {
                 let mut off = vec![];
-                let Some(p) = build_positive(g, cx, &mut off, false) else { return CaseResult::discard("no-legal-route") };
+                let Some(p) = build_positive(g, cx, &mut off) else { return CaseResult::discard("no-legal-route") };
                 with_switches(finish(&p, cx, "positive"), &off)
             }
             _ => {
